@@ -112,7 +112,10 @@ KINDS = {
     'series': series,
     'generator': st.lists(json_any, max_size=6),
     'lazy': st.lists(json_any, max_size=6),
-    'list_numpy': st.lists(np_arrays(), max_size=4),
+    'list_numpy': st.one_of(st.lists(np_arrays(), max_size=4), st.lists(np_arrays(), max_size=4),
+                            # a long list: element files beyond 1000 must still come back in order
+                            st.integers(1001, 1030).map(lambda n: [__import__('numpy').array(i, dtype='int32')
+                                                                   for i in range(n)])),
     'dir': dir_trees,
 }
 BINARY_KINDS = {'numpy', 'frame', 'series', 'list_numpy', 'dir'}
@@ -321,6 +324,14 @@ def eval_case(case, rec):
             d = same(kind, got2, want)
             if d:
                 raise Violation('loaded-value-differs', dict(info, diff=d, via=label))
+            # what a chain hands out belongs to the caller: mutating it must not change what later chains load
+            try:
+                if isinstance(got2, list):
+                    got2.append('<<mutated by the first loader>>')
+                elif isinstance(got2, dict):
+                    got2['<<mutated by the first loader>>'] = 1
+            except Exception:
+                pass
         after = tree_digest(tmp)
         if before != after:
             changed = sorted(set(before.items()) ^ set(after.items()))[:4]
